@@ -218,6 +218,9 @@ mod repr {
 
             // shortcut
             let bits = self.bit_len();
+            if bits == 0 {
+                return Repr::zero();
+            }
             if bits <= n {
                 // the result must be 1
                 return Repr::one();
